@@ -21,6 +21,7 @@ Section Sim.
 
   Definition F1 (f : nat) (z : Z) : Z := match fn f [z] with Some v => v | None => 0%Z end.
   Definition F2 (f : nat) (y z : Z) : Z := match fn f [y; z] with Some v => v | None => 0%Z end.
+  Definition F3 (f : nat) (x y z : Z) : Z := match fn f [x; y; z] with Some v => v | None => 0%Z end.
 
   Fixpoint abs_tree (t : node) : option A.tree :=
     match t with
@@ -29,7 +30,7 @@ Section Sim.
     | NProp None _ _ _ _ _ => None
     | NOp1 f d c a => match abs_tree a with Some a' => Some (A.Un f d c a') | None => None end
     | NOp2 f d c a b => match abs_tree a, abs_tree b with Some a', Some b' => Some (A.Bin f d c a' b') | _, _ => None end
-    | NOp3 _ _ _ _ _ _ => None
+    | NOp3 f d c a b e => match abs_tree a, abs_tree b, abs_tree e with Some a', Some b', Some e' => Some (A.Tern f d c a' b' e') | _, _, _ => None end
     end.
 
   Lemma abs_leaves : forall t T, abs_tree t = Some T -> map (fun lf => lf_id lf) (leaves t) = map snd (A.leaves T).
@@ -40,17 +41,19 @@ Section Sim.
     - destruct (abs_tree a) as [a'|]; [|discriminate H]. inversion H; subst. cbn. auto.
     - destruct (abs_tree a) as [a'|]; [|discriminate H]. destruct (abs_tree b) as [b'|]; [|discriminate H]. inversion H; subst.
       cbn [leaves A.leaves]. rewrite !map_app. rewrite (IHa _ eq_refl), (IHb _ eq_refl). reflexivity.
-    - discriminate H.
+    - destruct (abs_tree a) as [a'|]; [|discriminate H]. destruct (abs_tree b) as [b'|]; [|discriminate H]. destruct (abs_tree e) as [e'|]; [|discriminate H].
+      inversion H; subst. cbn [leaves A.leaves]. rewrite !map_app. rewrite (IHa _ eq_refl), (IHb _ eq_refl), (IHe _ eq_refl). reflexivity.
   Qed.
 
   (* markDirty: the abstract version walks both children, the concrete one stops at the first that contains the leaf *)
   Lemma amark_notin : forall T lid, ~ In lid (map snd (A.leaves T)) -> A.mark T lid = (T, false).
   Proof.
-    induction T as [z|p i d|f d c k IH|f d c k1 IH1 k2 IH2]; intros lid Hn; cbn [A.mark].
+    induction T as [z|p i d|f d c k IH|f d c k1 IH1 k2 IH2|f d c k1 IH1 k2 IH2 k3 IH3]; intros lid Hn; cbn [A.mark].
     - reflexivity.
     - destruct (Nat.eqb_spec i lid) as [->|]; [exfalso; apply Hn; left; reflexivity|reflexivity].
     - rewrite IH by exact Hn. reflexivity.
     - cbn [A.leaves] in Hn. rewrite map_app, in_app_iff in Hn. rewrite IH1, IH2 by tauto. reflexivity.
+    - cbn [A.leaves] in Hn. rewrite !map_app, !in_app_iff in Hn. rewrite IH1, IH2, IH3 by tauto. reflexivity.
   Qed.
 
   Lemma mark_none : forall t T lid, abs_tree t = Some T -> mark t lid = None -> ~ In lid (map snd (A.leaves T)).
@@ -63,7 +66,11 @@ Section Sim.
       cbn [A.leaves]. rewrite map_app, in_app_iff.
       destruct (mark a lid) as [[a1 u]|] eqn:Ea; [discriminate Hm|]. destruct (mark b lid) as [[b1 u]|] eqn:Eb; [discriminate Hm|].
       intros [Hi|Hi]; [eapply IHa; eauto|eapply IHb; eauto].
-    - discriminate H.
+    - destruct (abs_tree a) as [a'|]; [|discriminate H]. destruct (abs_tree b) as [b'|]; [|discriminate H]. destruct (abs_tree e) as [e'|]; [|discriminate H].
+      inversion H; subst. cbn [A.leaves]. rewrite !map_app, !in_app_iff.
+      destruct (mark a lid) as [[a1 u]|] eqn:Ea; [discriminate Hm|]. destruct (mark b lid) as [[b1 u]|] eqn:Eb; [discriminate Hm|].
+      destruct (mark e lid) as [[e1 u]|] eqn:Ee; [discriminate Hm|].
+      intros [Hi|[Hi|Hi]]; [eapply IHa; eauto|eapply IHb; eauto|eapply IHe; eauto].
   Qed.
 
   Lemma mark_some : forall t T lid r, abs_tree t = Some T -> mark t lid = Some r -> In lid (map snd (A.leaves T)).
@@ -75,7 +82,10 @@ Section Sim.
     - destruct (abs_tree a) as [a'|]; [|discriminate H]. destruct (abs_tree b) as [b'|]; [|discriminate H]. inversion H; subst.
       cbn [A.leaves]. rewrite map_app, in_app_iff.
       destruct (mark a lid) as [[a1 u]|] eqn:Ea; [left; eauto|]. destruct (mark b lid) as [[b1 u]|] eqn:Eb; [right; eauto|discriminate Hm].
-    - discriminate H.
+    - destruct (abs_tree a) as [a'|]; [|discriminate H]. destruct (abs_tree b) as [b'|]; [|discriminate H]. destruct (abs_tree e) as [e'|]; [|discriminate H].
+      inversion H; subst. cbn [A.leaves]. rewrite !map_app, !in_app_iff.
+      destruct (mark a lid) as [[a1 u]|] eqn:Ea; [left; eauto|]. destruct (mark b lid) as [[b1 u]|] eqn:Eb; [right; left; eauto|].
+      destruct (mark e lid) as [[e1 u]|] eqn:Ee; [right; right; eauto|discriminate Hm].
   Qed.
 
   Lemma sim_mark : forall t T lid t' up, abs_tree t = Some T -> NoDup (map snd (A.leaves T)) -> mark t lid = Some (t', up) ->
@@ -104,13 +114,40 @@ Section Sim.
         destruct (IHb _ _ _ _ eq_refl NDb Emb) as [E1 E2].
         rewrite (amark_notin _ _ (mark_none _ _ _ Ea Em)). destruct (A.mark b' lid) as [k' up']. cbn [fst snd orb] in *. subst u.
         destruct up', d; inversion Hm; subst; cbn [abs_tree fst snd]; rewrite Ea, E1; auto.
-    - discriminate H.
+    - destruct (abs_tree a) as [a'|] eqn:Ea; [|discriminate H]. destruct (abs_tree b) as [b'|] eqn:Eb; [|discriminate H].
+      destruct (abs_tree e) as [e'|] eqn:Ee; [|discriminate H]. inversion H; subst.
+      cbn [A.mark A.leaves] in *. rewrite !map_app in ND.
+      assert (NDa : NoDup (map snd (A.leaves a'))) by (eapply NoDup_app_l; eauto).
+      assert (NDbe : NoDup (map snd (A.leaves b') ++ map snd (A.leaves e'))) by (eapply NoDup_app_r; eauto).
+      assert (NDb : NoDup (map snd (A.leaves b'))) by (eapply NoDup_app_l; eauto).
+      assert (NDe : NoDup (map snd (A.leaves e'))) by (eapply NoDup_app_r; eauto).
+      destruct (mark a lid) as [[a1 u]|] eqn:Em.
+      + destruct (IHa _ _ _ _ eq_refl NDa Em) as [E1 E2].
+        assert (Hin : In lid (map snd (A.leaves a'))) by (eapply mark_some; eauto).
+        assert (Hnbe : ~ In lid (map snd (A.leaves b') ++ map snd (A.leaves e'))) by (eapply NoDup_app_disj; eauto).
+        rewrite in_app_iff in Hnbe.
+        rewrite (amark_notin b' lid) by tauto. rewrite (amark_notin e' lid) by tauto.
+        destruct (A.mark a' lid) as [k' up']. cbn [fst snd] in *. subst u. rewrite !orb_false_r.
+        destruct up', d; inversion Hm; subst; cbn [abs_tree fst snd]; rewrite E1, Eb, Ee; auto.
+      + pose proof (mark_none _ _ _ Ea Em) as Hna. rewrite (amark_notin a' lid Hna).
+        destruct (mark b lid) as [[b1 u]|] eqn:Emb.
+        * destruct (IHb _ _ _ _ eq_refl NDb Emb) as [E1 E2].
+          assert (Hin : In lid (map snd (A.leaves b'))) by (eapply mark_some; eauto).
+          assert (Hne : ~ In lid (map snd (A.leaves e'))) by (eapply NoDup_app_disj; eauto).
+          rewrite (amark_notin e' lid Hne).
+          destruct (A.mark b' lid) as [k' up']. cbn [fst snd orb] in *. subst u. rewrite orb_false_r.
+          destruct up', d; inversion Hm; subst; cbn [abs_tree fst snd]; rewrite Ea, E1, Ee; auto.
+        * pose proof (mark_none _ _ _ Eb Emb) as Hnb. rewrite (amark_notin b' lid Hnb).
+          destruct (mark e lid) as [[e1 u]|] eqn:Eme; [|discriminate Hm].
+          destruct (IHe _ _ _ _ eq_refl NDe Eme) as [E1 E2].
+          destruct (A.mark e' lid) as [k' up']. cbn [fst snd orb] in *. subst u.
+          destruct up', d; inversion Hm; subst; cbn [abs_tree fst snd]; rewrite Ea, Eb, E1; auto.
   Qed.
 
   Lemma sim_eval val env : forall t T t' v l,
     abs_tree t = Some T -> (forall p lid, In (p, lid) (A.leaves T) -> val p = Some (env p)) ->
     eval fn rtl val t = (t', inl v, l) ->
-    abs_tree t' = Some (fst (A.eval F1 F2 env T)) /\ v = snd (A.eval F1 F2 env T).
+    abs_tree t' = Some (fst (A.eval F1 F2 F3 env T)) /\ v = snd (A.eval F1 F2 F3 env T).
   Proof.
     induction t as [z|tg d l0 hc hm hd|f d c a IHa|f d c a IHa b IHb|f d c a IHa b IHb e IHe]; intros T t' v l H Hv He; cbn [abs_tree eval] in *.
     - inversion H; inversion He; subst. cbn. auto.
@@ -118,7 +155,7 @@ Section Sim.
     - destruct (abs_tree a) as [a'|] eqn:Ea; [|discriminate H]. inversion H; subst. cbn [A.eval A.leaves] in *.
       destruct d; [|inversion He; subst; cbn [abs_tree]; rewrite Ea; auto].
       destruct (eval fn rtl val a) as [[a1 ra] la] eqn:Eva. destruct ra as [va|x]; [|discriminate He].
-      destruct (IHa _ _ _ _ eq_refl Hv eq_refl) as [E1 E2]. destruct (A.eval F1 F2 env a') as [k' vk]. cbn [fst snd] in *. subst vk.
+      destruct (IHa _ _ _ _ eq_refl Hv eq_refl) as [E1 E2]. destruct (A.eval F1 F2 F3 env a') as [k' vk]. cbn [fst snd] in *. subst vk.
       unfold F1. destruct (fn f [va]) as [r|]; [|discriminate He]. inversion He; subst. cbn [abs_tree fst snd]. rewrite E1. auto.
     - destruct (abs_tree a) as [a'|] eqn:Ea; [|discriminate H]. destruct (abs_tree b) as [b'|] eqn:Eb; [|discriminate H]. inversion H; subst.
       cbn [A.eval A.leaves] in *.
@@ -134,9 +171,25 @@ Section Sim.
           inversion He; subst. eauto 10. }
       destruct Hab as (va & vb & r & -> & -> & Ef & -> & ->).
       destruct (IHa _ _ _ _ eq_refl Hva eq_refl) as [E1 E2]. destruct (IHb _ _ _ _ eq_refl Hvb eq_refl) as [E3 E4].
-      destruct (A.eval F1 F2 env a') as [k1 v1], (A.eval F1 F2 env b') as [k2 v2]. cbn [fst snd] in *. subst v1 v2.
+      destruct (A.eval F1 F2 F3 env a') as [k1 v1], (A.eval F1 F2 F3 env b') as [k2 v2]. cbn [fst snd] in *. subst v1 v2.
       unfold F2. rewrite Ef. cbn [abs_tree fst snd]. rewrite E1, E3. auto.
-    - discriminate H.
+    - destruct (abs_tree a) as [a'|] eqn:Ea; [|discriminate H]. destruct (abs_tree b) as [b'|] eqn:Eb; [|discriminate H].
+      destruct (abs_tree e) as [e'|] eqn:Ee; [|discriminate H]. inversion H; subst. cbn [A.eval A.leaves] in *.
+      destruct d; [|inversion He; subst; cbn [abs_tree]; rewrite Ea, Eb, Ee; auto].
+      assert (Hva : forall p lid, In (p, lid) (A.leaves a') -> val p = Some (env p)) by (intros; apply (Hv p lid); apply in_or_app; auto).
+      assert (Hvb : forall p lid, In (p, lid) (A.leaves b') -> val p = Some (env p)) by (intros; apply (Hv p lid); apply in_or_app; right; apply in_or_app; auto).
+      assert (Hve : forall p lid, In (p, lid) (A.leaves e') -> val p = Some (env p)) by (intros; apply (Hv p lid); apply in_or_app; right; apply in_or_app; auto).
+      destruct (eval fn rtl val a) as [[a1 ra] la] eqn:Eva, (eval fn rtl val b) as [[b1 rb] lb] eqn:Evb, (eval fn rtl val e) as [[e1 re] le] eqn:Eve.
+      assert (Hab : exists va vb ve r, ra = inl va /\ rb = inl vb /\ re = inl ve /\ fn f [va; vb; ve] = Some r /\ t' = NOp3 f false r a1 b1 e1 /\ v = r).
+      { destruct rtl.
+        - destruct re as [ve|x]; [|discriminate He]. destruct rb as [vb|x]; [|discriminate He]. destruct ra as [va|x]; [|discriminate He].
+          destruct (fn f [va; vb; ve]) as [r|] eqn:Ef; [|discriminate He]. inversion He; subst. eauto 12.
+        - destruct ra as [va|x]; [|discriminate He]. destruct rb as [vb|x]; [|discriminate He]. destruct re as [ve|x]; [|discriminate He].
+          destruct (fn f [va; vb; ve]) as [r|] eqn:Ef; [|discriminate He]. inversion He; subst. eauto 12. }
+      destruct Hab as (va & vb & ve & r & -> & -> & -> & Ef & -> & ->).
+      destruct (IHa _ _ _ _ eq_refl Hva eq_refl) as [E1 E2]. destruct (IHb _ _ _ _ eq_refl Hvb eq_refl) as [E3 E4]. destruct (IHe _ _ _ _ eq_refl Hve eq_refl) as [E5 E6].
+      destruct (A.eval F1 F2 F3 env a') as [k1 v1], (A.eval F1 F2 F3 env b') as [k2 v2], (A.eval F1 F2 F3 env e') as [k3 v3]. cbn [fst snd] in *. subst v1 v2 v3.
+      unfold F3. rewrite Ef. cbn [abs_tree fst snd]. rewrite E1, E3, E5. auto.
   Qed.
 
   (* ---------------------------------------------------------------------------------------------- *)
@@ -248,21 +301,29 @@ Section Sim.
     intros t pos ser label act Hs. destruct F as (_ & T & _). unfold slot_at in Hs. rewrite T in Hs. eapply Hn; eauto.
   Qed.
 
+  Lemma abs_leaf_in : forall t T p lid, abs_tree t = Some T -> In (p, lid) (A.leaves T) ->
+    exists lf, In lf (leaves t) /\ lf_tg lf = Some p /\ lf_id lf = lid.
+  Proof.
+    induction t as [v|tg d l hc hm hd|f d c a IHa|f d c a IHa b0 IHb|f d c a IHa b0 IHb e IHe]; intros T p lid Ht Hi; cbn [abs_tree] in Ht.
+    - inversion Ht; subst. destruct Hi.
+    - destruct tg as [p0|]; inversion Ht; subst. destruct Hi as [E|[]]. inversion E; subst. eexists. split; [left; reflexivity|auto].
+    - destruct (abs_tree a) as [a'|]; [|discriminate Ht]. inversion Ht; subst. cbn in Hi. destruct (IHa _ _ _ eq_refl Hi) as (lf & H1 & H2). eauto.
+    - destruct (abs_tree a) as [a'|]; [|discriminate Ht]. destruct (abs_tree b0) as [b'|]; [|discriminate Ht]. inversion Ht; subst.
+      cbn [A.leaves] in Hi. apply in_app_iff in Hi. destruct Hi as [Hi|Hi].
+      + destruct (IHa _ _ _ eq_refl Hi) as (lf & H1 & H2). exists lf. split; [cbn [leaves]; apply in_or_app; auto|exact H2].
+      + destruct (IHb _ _ _ eq_refl Hi) as (lf & H1 & H2). exists lf. split; [cbn [leaves]; apply in_or_app; auto|exact H2].
+    - destruct (abs_tree a) as [a'|]; [|discriminate Ht]. destruct (abs_tree b0) as [b'|]; [|discriminate Ht]. destruct (abs_tree e) as [e'|]; [|discriminate Ht].
+      inversion Ht; subst. cbn [A.leaves] in Hi. apply in_app_iff in Hi. destruct Hi as [Hi|Hi]; [|apply in_app_iff in Hi; destruct Hi as [Hi|Hi]].
+      + destruct (IHa _ _ _ eq_refl Hi) as (lf & H1 & H2). exists lf. split; [cbn [leaves]; apply in_or_app; auto|exact H2].
+      + destruct (IHb _ _ _ eq_refl Hi) as (lf & H1 & H2). exists lf. split; [cbn [leaves]; apply in_or_app; right; apply in_or_app; auto|exact H2].
+      + destruct (IHe _ _ _ eq_refl Hi) as (lf & H1 & H2). exists lf. split; [cbn [leaves]; apply in_or_app; right; apply in_or_app; auto|exact H2].
+  Qed.
+
   Lemma values_env w s p lid T b x :
     pinv w -> Rel w s -> get_bind w b = Some x -> abs_tree (b_root x) = Some T -> In (p, lid) (A.leaves T) -> values w p = Some (A.env s p).
   Proof.
-    intros Hinv (R1 & _) Hb Ht Hi.
-    assert (Hl : exists lf, In lf (leaves (b_root x)) /\ lf_tg lf = Some p).
-    { clear - Ht Hi. revert T Ht Hi. generalize (b_root x). induction n as [v|tg d l hc hm hd|f d c a IHa|f d c a IHa b0 IHb|f d c a IHa b0 IHb e IHe]; intros T Ht Hi; cbn [abs_tree] in Ht.
-      - inversion Ht; subst. destruct Hi.
-      - destruct tg as [p0|]; inversion Ht; subst. destruct Hi as [E|[]]. inversion E; subst. eexists. split; [left; reflexivity|reflexivity].
-      - destruct (abs_tree a) as [a'|]; [|discriminate Ht]. inversion Ht; subst. cbn in Hi. destruct (IHa _ eq_refl Hi) as (lf & H1 & H2). eauto.
-      - destruct (abs_tree a) as [a'|]; [|discriminate Ht]. destruct (abs_tree b0) as [b'|]; [|discriminate Ht]. inversion Ht; subst.
-        cbn [A.leaves] in Hi. apply in_app_iff in Hi. destruct Hi as [Hi|Hi].
-        + destruct (IHa _ eq_refl Hi) as (lf & H1 & H2). exists lf. split; [cbn [leaves]; apply in_or_app; auto|exact H2].
-        + destruct (IHb _ eq_refl Hi) as (lf & H1 & H2). exists lf. split; [cbn [leaves]; apply in_or_app; auto|exact H2].
-      - discriminate Ht. }
-    destruct Hl as (lf & Hlf & Htg). destruct (leaf_target_exists w b x lf p Hinv Hb Hlf Htg) as (pr & Hp & _).
+    intros Hinv (R1 & _) Hb Ht Hi. destruct (abs_leaf_in _ _ _ _ Ht Hi) as (lf & Hlf & Htg & _).
+    destruct (leaf_target_exists w b x lf p Hinv Hb Hlf Htg) as (pr & Hp & _).
     unfold values. rewrite Hp. cbn. rewrite (R1 _ _ Hp). reflexivity.
   Qed.
 
@@ -292,11 +353,11 @@ Section Sim.
     Lemma ORDOK_FR w w' : FR w w' -> ORDOK w -> ORDOK w'.
     Proof. intros F H p. rewrite (FR_ORD _ _ p F). apply H. Qed.
     Hypothesis HR : forall w q v w' s, SC w -> ORDOK w -> Rel w s -> R w q v = (w', None) ->
-                      SC w' /\ FR w w' /\ Rel w' (A.set F1 F2 order f s q v).
+                      SC w' /\ FR w w' /\ Rel w' (A.set F1 F2 F3 order f s q v).
 
     Definition adeliver (w : world) (s : A.state) (sub : subscriber) : A.state :=
       match sub with
-      | SNode b l => match imm w b with Some q => A.deliver F1 F2 (A.notify F1 F2 order f) s (q, l) | None => s end
+      | SNode b l => match imm w b with Some q => A.deliver F1 F2 F3 (A.notify F1 F2 F3 order f) s (q, l) | None => s end
       | SObs _ _ => s
       end.
 
@@ -349,7 +410,7 @@ Section Sim.
             { intros p0 lid Hin. change (values w1 p0) with (values w p0). eapply (values_env w s p0 lid T b x Hinv (conj R1 (conj R2 R3)) Hb HT).
               pose proof (PropAbsProofs.mark_leaves T l) as ML. rewrite HmT in ML. cbn [fst] in ML. rewrite <- ML. exact Hin. }
             destruct (sim_eval (values w1) (A.env s) t1 T1 t2 v' lg Et1 Hval He) as [Et2 Ev'].
-            destruct (A.eval F1 F2 (A.env s) T1) as [T2 vT] eqn:HeT. cbn [fst snd] in *. subst vT.
+            destruct (A.eval F1 F2 F3 (A.env s) T1) as [T2 vT] eqn:HeT. cbn [fst snd] in *. subst vT.
             pose proof (leaves_eval fn rtl (values w1) t1) as Hl2. rewrite He in Hl2. cbn [fst] in Hl2.
             set (w2 := log_fns lg (put_bind w1 b (bind_with_root (bind_with_root x t1) t2))) in *.
             assert (Eq2 : put_bind w1 b (bind_with_root (bind_with_root x t1) t2) = put_bind w b (bind_with_root x t2)).
@@ -410,7 +471,7 @@ Section Sim.
     Lemma sim_walk t p v0 sl fr al : forall idxs w s w',
       SC w -> ORDOK w -> Rel w s -> tview w t = Some (sl, fr, al) ->
       walk fn rtl R w t p KChanged [v0] idxs = (w', None) ->
-      SC w' /\ FR w w' /\ Rel w' (fold_left (A.deliver F1 F2 (A.notify F1 F2 order f)) (ord_slots w sl idxs) s).
+      SC w' /\ FR w w' /\ Rel w' (fold_left (A.deliver F1 F2 F3 (A.notify F1 F2 F3 order f)) (ord_slots w sl idxs) s).
     Proof.
       induction idxs as [|x r IH]; intros w s w' HSC Hord HRel Ht H; cbn [walk ord_slots flat_map] in *.
       - inversion H; subst. split; [exact HSC|]. split; [apply FR_refl|exact HRel].
@@ -424,7 +485,7 @@ Section Sim.
           destruct (IH w1 _ w' SC1 (ORDOK_FR _ _ FR1 Hord) Rel1 Tv1 H) as (SC' & FR' & Rel').
           split; [exact SC'|]. split; [eapply FR_trans; eauto|].
           rewrite (ord_slots_FR _ _ sl r FR1) in Rel'. rewrite fold_left_app.
-          replace (fold_left (A.deliver F1 F2 (A.notify F1 F2 order f)) match sub with SNode b l => match imm w b with Some q => [(q, l)] | None => [] end | SObs _ _ => [] end s)
+          replace (fold_left (A.deliver F1 F2 F3 (A.notify F1 F2 F3 order f)) match sub with SNode b l => match imm w b with Some q => [(q, l)] | None => [] end | SObs _ _ => [] end s)
             with (adeliver w s sub); [exact Rel'|].
           destruct sub as [label act|b l]; [reflexivity|]. cbn [adeliver]. destruct (imm w b); reflexivity.
         + cbn [app]. apply IH; auto.
@@ -434,7 +495,7 @@ Section Sim.
     Lemma sim_emit_changed w s p v0 ot w' :
       SC w -> ORDOK w -> Rel w s -> (exists vp, pview w p = Some vp /\ ps_changed vp = ot) ->
       emit fn rtl R w ot p KChanged [v0] = (w', None) ->
-      SC w' /\ FR w w' /\ Rel w' (A.notify_body F1 F2 order (A.notify F1 F2 order f) s p).
+      SC w' /\ FR w w' /\ Rel w' (A.notify_body F1 F2 F3 order (A.notify F1 F2 F3 order f) s p).
     Proof.
       intros HSC Hord HRel (vp & Hvp & Hch) H. unfold A.notify_body. rewrite (Hord p). unfold ORD. rewrite Hvp, Hch.
       unfold emit in H. destruct ot as [t|]; [|inversion H; subst; split; [exact HSC|split; [apply FR_refl|exact HRel]]].
@@ -505,7 +566,7 @@ Section Sim.
   (* Property::setHelper is the abstract `set` *)
   Theorem sim_set order : forall f w q v w' s,
     SC w -> ORDOK order w -> Rel w s -> set_helper fn rtl f w q v = (w', None) ->
-    SC w' /\ FR w w' /\ Rel w' (A.set F1 F2 order f s q v).
+    SC w' /\ FR w w' /\ Rel w' (A.set F1 F2 F3 order f s q v).
   Proof.
     induction f as [|f IH]; intros w q v w' s HSC Hord HRel H; cbn [set_helper] in H; [discriminate H|].
     destruct (lookup (w_props w) q) as [pr|] eqn:Hq; [|discriminate H].
@@ -541,10 +602,10 @@ Section Sim.
   (* coherence of a world: its abstraction satisfies the invariant of the abstract model (every node of every immediate
      binding clean, every cache the denotation of its subtree, every bound value the denotation of its expression, every leaf
      subscribed) - with the delivery order of the world itself *)
-  Definition COH (w : world) : Prop := exists s, Rel w s /\ PropAbsProofs.Inv F1 F2 (ORD w) s [].
+  Definition COH (w : world) : Prop := exists s, Rel w s /\ PropAbsProofs.Inv F1 F2 F3 (ORD w) s [].
 
   Lemma Inv_order_ext (o o' : nat -> list (nat * nat)) s P :
-    (forall p, o' p = o p) -> PropAbsProofs.Inv F1 F2 o s P -> PropAbsProofs.Inv F1 F2 o' s P.
+    (forall p, o' p = o p) -> PropAbsProofs.Inv F1 F2 F3 o s P -> PropAbsProofs.Inv F1 F2 F3 o' s P.
   Proof.
     intros E H q t Ht. destruct (H q t Ht) as (A1 & A2 & A3 & A4). repeat split; auto. intros p lid Hi. rewrite E. auto.
   Qed.
@@ -557,7 +618,7 @@ Section Sim.
     intros HSC (s & HRel & HInv) Hp Hu H.
     destruct (sim_set (ORD w) f w p v w' s HSC (fun _ => eq_refl) HRel H) as (SC' & FR' & Rel').
     split; [exact SC'|]. split; [|exact FR'].
-    exists (A.set F1 F2 (ORD w) f s p v). split; [exact Rel'|].
+    exists (A.set F1 F2 F3 (ORD w) f s p v). split; [exact Rel'|].
     apply (Inv_order_ext (ORD w)); [intros p0; apply FR_ORD; exact FR'|].
     destruct HRel as (R1 & R2 & R3). apply PropAbsProofs.set_consistent; auto.
     - rewrite R2. unfold imm_of. rewrite Hp, Hu. reflexivity.
@@ -568,7 +629,7 @@ Section Sim.
      gives when recomputed from scratch over the current values of its inputs *)
   Lemma den_node_abs val env : forall t T z,
     abs_tree t = Some T -> (forall p lid, In (p, lid) (A.leaves T) -> val p = Some (env p)) ->
-    PropCheck.den_node fn val t = Some z -> z = A.den F1 F2 env T.
+    PropCheck.den_node fn val t = Some z -> z = A.den F1 F2 F3 env T.
   Proof.
     induction t as [c|tg d l0 hc hm hd|g d c a IHa|g d c a IHa b IHb|g d c a IHa b IHb e IHe]; intros T z H Hv Hd; cbn [abs_tree PropCheck.den_node] in *.
     - inversion H; subst. inversion Hd; reflexivity.
@@ -579,7 +640,14 @@ Section Sim.
       destruct (PropCheck.den_node fn val a) as [va|]; [|discriminate Hd]. destruct (PropCheck.den_node fn val b) as [vb|]; [|discriminate Hd].
       rewrite <- (IHa _ _ eq_refl (fun p lid Hi => Hv p lid (in_or_app _ _ _ (or_introl Hi))) eq_refl).
       rewrite <- (IHb _ _ eq_refl (fun p lid Hi => Hv p lid (in_or_app _ _ _ (or_intror Hi))) eq_refl). unfold F2. rewrite Hd. reflexivity.
-    - discriminate H.
+    - destruct (abs_tree a) as [a'|]; [|discriminate H]. destruct (abs_tree b) as [b'|]; [|discriminate H]. destruct (abs_tree e) as [e'|]; [|discriminate H].
+      inversion H; subst. cbn [A.den A.leaves] in *.
+      destruct (PropCheck.den_node fn val a) as [va|]; [|discriminate Hd]. destruct (PropCheck.den_node fn val b) as [vb|]; [|discriminate Hd].
+      destruct (PropCheck.den_node fn val e) as [ve|]; [|discriminate Hd].
+      rewrite <- (IHa _ _ eq_refl (fun p lid Hi => Hv p lid (in_or_app _ _ _ (or_introl Hi))) eq_refl).
+      rewrite <- (IHb _ _ eq_refl (fun p lid Hi => Hv p lid (in_or_app _ _ _ (or_intror (in_or_app _ _ _ (or_introl Hi))))) eq_refl).
+      rewrite <- (IHe _ _ eq_refl (fun p lid Hi => Hv p lid (in_or_app _ _ _ (or_intror (in_or_app _ _ _ (or_intror Hi))))) eq_refl).
+      unfold F3. rewrite Hd. reflexivity.
   Qed.
 
   Theorem coherent_bound_equals_expression w q x pr z :
